@@ -94,7 +94,7 @@ def main(argv):
                 shown += 1
                 print(' cfg', json.dumps(r['cfg']), 'paths', r['paths'])
                 for o in bad[:3]:
-                    print('   ', o['label'], o['result'], o.get('model'), (o.get('replay') or {}).get('failed_clauses'), (o.get('replay') or {}).get('why'), o.get('solver', '')[:100])
+                    print('   ', o['label'], o['result'], (o.get('replay') or {}).get('inputs'), (o.get('replay') or {}).get('failed_clauses'), (o.get('replay') or {}).get('found_by'), (o.get('replay') or {}).get('why'))
                 for e in r['checker_errors'][:2]:
                     print('    CHK', e[:1500])
                 for u in r['undecided_paths'][:2]:
